@@ -291,6 +291,34 @@ def op_pair(w: World, op):
     return out
 
 
+def op_xunion(w: World, op):
+    """union of two (expanded) data IDs looked at closely: what it claims (hasRecords), the record of EVERY element of its
+    group one by one, and Registry.expandDataId of it next to the expansion of the same values given as a plain mapping"""
+    try:
+        a = w.build(op["a"])
+        b = w.build(op["b"])
+    except Exception as e:  # noqa: BLE001
+        return {"skip": ecls(e)}
+    try:
+        u = a.union(b)
+    except Exception as e:  # noqa: BLE001
+        return {"union_err": ecls(e), "msg": str(e)[:160]}
+    out = {"names": list(u.dimensions.names), "elements": list(u.dimensions.elements), "full": bool(u.hasFull()),
+           "hasrec": bool(u.hasRecords()), "items": [[k, enc(v)] for k, v in u.mapping.items()],
+           "required": [[k, enc(v)] for k, v in u.required.items()], "a_hasrec": bool(a.hasRecords()), "b_hasrec": bool(b.hasRecords())}
+    recs = []
+    if u.hasRecords():
+        for e in u.dimensions.elements:
+            try:
+                recs.append([e, {"ok": w.rec_obs(w.universe[e], u.records[e])}])
+            except Exception as ex:  # noqa: BLE001
+                recs.append([e, {"err": ecls(ex)}])
+    out["recs"] = recs
+    out["expand_union"] = w.try_obs(lambda: w.reg.expandDataId(u))
+    out["expand_plain"] = w.try_obs(lambda: w.reg.expandDataId(dict(u.mapping)))
+    return out
+
+
 def op_get(w: World, op):
     try:
         d = w.build(op["spec"])
@@ -418,7 +446,7 @@ def op_mutate(w: World, op):
     return out
 
 
-OPS = {"mutate": op_mutate, "build": op_build, "pair": op_pair, "get": op_get, "eqmap": op_eqmap, "rollback": op_rollback, "putget": op_putget}
+OPS = {"xunion": op_xunion, "mutate": op_mutate, "build": op_build, "pair": op_pair, "get": op_get, "eqmap": op_eqmap, "rollback": op_rollback, "putget": op_putget}
 
 
 def run_batch(payload):
